@@ -90,9 +90,39 @@ def replay_case(fn, short, env):
     return {"reproduced": bool(fails), "failed_clauses": fails[:4], "env": env}
 
 
+def extreme_values():
+    """Finite operands whose intermediate quantities would overflow in a naive formulation (|1 + e^z|^2 for Re z > 355, moduli
+    near 1e200, quotients of huge numbers): results are compared with Python's complex arithmetic."""
+    import cmath
+    import torch
+    from qucumber.utils import cplx
+    fails = []
+    zs = [complex(x, y) for x in (-700.0, -360.0, -30.0, 0.5, 30.0, 360.0, 400.0, 555.5, 700.0) for y in (0.0, 1.0, -2.5)]
+    re, im = torch.tensor([z.real for z in zs], dtype=torch.double), torch.tensor([z.imag for z in zs], dtype=torch.double)
+    s = cplx.sigmoid(re, im)
+    for i, z in enumerate(zs):
+        want = 1 / (1 + cmath.exp(-z)) if z.real > 0 else cmath.exp(z) / (1 + cmath.exp(z))
+        got = complex(float(s[0, i]), float(s[1, i]))
+        if not (abs(got - want) <= 1e-12 * (1 + abs(want))):
+            fails.append(("sigmoid(%r) = %r, complex arithmetic gives %r" % (z, got, want), None))
+            break
+    big = [complex(3e150, -4e150), complex(-1e-150, 2e-150), complex(1e153, 1e153)]
+    x = torch.tensor([[z.real for z in big], [z.imag for z in big]], dtype=torch.double)
+    a = cplx.absolute_value(x)
+    for i, z in enumerate(big):
+        if not (abs(float(a[i]) - abs(z)) <= 1e-12 * abs(z)):
+            fails.append(("absolute_value(%r) = %r, |z| = %r" % (z, float(a[i]), abs(z)), None))
+            break
+    return fails
+
+
 def bounded(tier, seed):
     import lemmas.C15 as L
     n, bad = 0, []
+    f = extreme_values()
+    n += 1
+    if f:
+        bad.append(("extreme finite values", f[:2]))
     for case in L.cases(tier):
         try:
             f = check_case(case, {}, seed)
